@@ -213,6 +213,8 @@ class Impl:
         self.z = None
         self.sizes = {}
         self.script = {}
+        self._nextid = 500
+        self._ids = {}
         for t in case.split():
             if t[0] == "S":
                 h, stdio, act, gate, fl = spawn_fields(t)
@@ -221,7 +223,6 @@ class Impl:
             self.bad = "worker did not finish: %s" % line[:80]
             return
         cur = None
-        nextid = [500]
         try:
             for t in self.toks:
                 c = t[0]
@@ -292,8 +293,6 @@ class Impl:
                 return
         if self.z is None:
             self.bad = "case did not reach its end"
-        self._nextid = 500
-        self._ids = {}
 
     def fid(self, ident):
         """identity -> file id: private files by their number, /dev/null 0, others 500+"""
@@ -368,12 +367,12 @@ def canon_impl(im):
             if "R" in sc["flags"]:
                 st = sp.get("t", {})
                 out.append("t%d:%s" % (v, ";".join("%d=%s/%s" % (s, fd, ".".join(map(str, tg)))
-                                                    for s, (fd, tg) in sorted(st.items()))))
+                                                    for s, (fd, tg) in sorted(st.items()) if fd != "-")))   # "-": stream never opened
             b = [a for a in sp["b"] if a != "E"]
             if b:
                 out.append("b%d:%s" % (v, b[-1]))
         elif kind == "W":
-            out += ["w%d:%s" % (h, a) for h, a in v]
+            out += ["w%d:%s" % (h, a) for h, a in v if a != "E"]     # the model's wait_retry absorbs EINTR
         elif kind == "X":
             out.append("x%d:%d:%d" % v)
     out += ["m%d:%d" % (n, s) for n, s in sorted(im.sizes.items())]
@@ -484,7 +483,7 @@ def monitor_impl(im):
                 return ("uv_spawn of child %d returned %d (active=%d) although %s" %
                         (h, sp["ret"], sp["active"],
                          "the program does not exist" if "E" in fl else "a step of the spawn failed"),
-                        "E" in fl and not inject and not bad_src)
+                        ("E" in fl or any(x != "b" for x in bad_src)) and not inject and "b" not in stdio)
             if h in nx:
                 return "exit_cb ran for child %d whose spawn failed" % h, False
             if h in (im.z or []):
@@ -542,7 +541,7 @@ def monitor_impl(im):
             if h in stolen:
                 expect_cb = False
             n = nx.get(h, 0)
-            if n != (1 if expect_cb else 0) and not (h in closed_at and n <= 1 and "N" not in fl and h not in stolen):
+            if n != (1 if expect_cb else 0):
                 return "exit_cb ran %d times for child %d" % (n, h), False
             for hh, es, ts, chk, act in im.exits:
                 if hh != h:
